@@ -5,6 +5,8 @@ import VirtioVerif.Model.Blk
 import VirtioVerif.Model.Net
 import VirtioVerif.Model.Mmio
 import VirtioVerif.Model.Config
+import VirtioVerif.Model.PciBus
+import VirtioVerif.Model.PciCap
 /-!
 Native line-protocol driver over all models: one request line in, one reply line out.
 `case …` lines reset per-case state and are echoed as `case`.
@@ -16,6 +18,7 @@ structure World where
   queue : Queue.Q := Queue.Q.init 1 false false false
   blk : Option Blk.State := none
   net : Option Net.W := none
+  pci : Option PciCap.Transport := none
 
 def World.fresh : World := {}
 
@@ -29,6 +32,10 @@ def step (w : World) (line : String) : World × String :=
   | "net" :: op :: rest => let (s, o) := Net.handle w.net op (Proto.parseArgs rest); ({ w with net := s }, o)
   | "mmio" :: op :: rest => (w, Mmio.handle op (Proto.parseArgs rest))
   | "config" :: op :: rest => (w, Config.handle op (Proto.parseArgs rest))
+  | "pci" :: op :: rest => (w, PciBus.handle op (Proto.parseArgs rest))
+  | "pcicap" :: op :: rest =>
+    let (t, o) := PciCap.handle w.pci op (Proto.parseArgs rest)
+    ({ w with pci := t }, o)
   | _ => (w, "bad-op")
 
 partial def loop (h : IO.FS.Stream) (out : IO.FS.Stream) (w : World) : IO Unit := do
